@@ -485,6 +485,22 @@ def rule_cachekey(ctx) -> None:
                   "(e.g. per-slice) cap, which then reports more pops/layers than its budget allows")
 
 
+def rule_key_unambiguous(ctx) -> None:
+    """a cached propagation is reported for the call at hand only if the key tells its seeds apart: the seed ids enter the key
+    as a tuple (or another encoding that keeps element boundaries), never folded through a separator an id may contain."""
+    from .c05 import lossy_key_parts
+    fn = ctx.func(INNER)
+    R = roles(ctx)
+    gets = find_calls(ctx, fn, lambda c, nm: call_tail(c) == "get" and src(c.func.value) == R["cache"])
+    if not gets:
+        raise AnalysisError("anchor-vanished: T1 cache lookup")
+    n, c = gets[0]
+    bad = lossy_key_parts(ctx, fn, c.args[0], n, ctx.func(T1 + ":t1_propagate"))
+    ctx.check(not bad, "C12.CACHEKEY", f"{fn.qual}/key-tells-seed-sets-apart", fn.loc(bad[0][1] if bad else c), "every collection in the key keeps its element boundaries",
+              (f"`{src(bad[0][1])[:60]}` folds ids into one string for the key: seed sets such as {{'cat', 'dog'}} and {{'cat|dog'}} share it, and the second text is answered with the "
+               "first one's deltas - nodes unreachable from its own seeds, and counters for work not done") if bad else "")
+
+
 def rule_tallies_accumulate(ctx) -> None:
     """"counters that match the work done": a tally that is folded into a reported total after a loop (`total += tally`) must
     itself be accumulated inside the loop.  A plain assignment there (`tally = ev`, `tally = 1`) keeps the last iteration's
@@ -565,3 +581,4 @@ def run(ctx) -> None:
     rule_rule(ctx)
     rule_seed_out(ctx)
     rule_cachekey(ctx)
+    rule_key_unambiguous(ctx)
